@@ -1,7 +1,7 @@
 (* C03 -- Cancelable mode holds a trace until its root finishes, then delivers it whole.
    Only pinned statements, closed by [exact lemma], with Print Assumptions. *)
 From Coq Require Import List NArith Bool.
-From FT Require Import Model.Base Model.Records Model.Collector Proofs.CollectorProofs.
+From FT Require Import Model.Base Model.Records Model.Collector Proofs.CollectorProofs Proofs.DeliveryProofs.
 Import ListNotations.
 Open Scope N_scope.
 
@@ -28,7 +28,31 @@ Theorem C03_commit_deactivates :
   forall conv cb am b c, In c (b_commit b) -> amem c (fst (process_owned conv cb am b)) = false.
 Proof. exact commit_removes. Qed.
 
+(* delivered WHOLE, at the collector: when the commit of collect id c is processed and c was
+   not cancelled, the single report call of that cycle carries for c exactly the spans of
+   everything the collector had been given for c in earlier cycles ([a_colls a]) followed by
+   everything submitted for c in this very batch ([items_for c]), in order, each once; and c
+   is inactive afterwards.  (What "had reached the collector" means across threads is the
+   cut of the drain: known finding K1.) *)
+Theorem C03_commit_delivers_whole :
+  forall conv am b c a,
+    alookup c (do_drops true (do_starts am (b_start b)) (b_drop b)) = Some a ->
+    In c (b_commit b) ->
+    map core3 (tagged c (snd (process_owned conv true am b))) =
+    flat_map coll_cores (a_colls a ++ items_for c (b_submit b)) /\
+    amem c (fst (process_owned conv true am b)) = false.
+Proof. exact cancelable_commit_delivers_whole. Qed.
+
+Example C03_commit_delivers_whole_example :
+  let held := mkActive [mkColl (SSpan (mkRaw 5 0 10 1 None KSpan 20)) 7 4] [] in
+  let b := mkBatch [] [] [0] [(SSpan (mkRaw 4 0 5 2 None KSpan 30), [mkTok 7 100 0 true true]);
+                              (SSpan (mkRaw 9 0 6 3 None KSpan 8), [mkTok 8 1 1 false true])] in
+  map core3 (tagged 0 (snd (process_owned (fun x => x) true [(0, held); (1, mkActive [] [])] b)))
+  = [(7, 5, 4); (7, 4, 100)].
+Proof. vm_compute. reflexivity. Qed.
+
 Print Assumptions C03_hold.
 Print Assumptions C03_no_commit_no_report.
 Print Assumptions C03_nothing_afterwards.
 Print Assumptions C03_commit_deactivates.
+Print Assumptions C03_commit_delivers_whole.
